@@ -670,6 +670,13 @@ def ground_axioms(c, relevant=None):
                 (b,), u = lg[j]
                 ax += [E.implies(E.cmp('<=', a, b), E.cmp('<=', v, u)), E.implies(E.cmp('<=', b, a), E.cmp('<=', u, v)),
                        E.implies(E.cmp('<', a, b), E.cmp('<', v, u)), E.implies(E.cmp('<', b, a), E.cmp('<', u, v))]
+    for name in ('log', 'log10'):
+        lg = c.apps.get(name, [])
+        for i in range(len(lg)):
+            for j in range(i + 1, len(lg)):
+                (a,), v = lg[i]
+                (b,), u = lg[j]
+                ax.append(E.implies(E.cmp('==', E.mul(a, b), O), E.cmp('==', E.add(v, u), Z)))     # log(1/x) = -log x
     for (a,), v in c.apps.get('log', []):
         for (b,), u in ex:
             ax.append(E.implies(E.cmp('==', a, u), E.cmp('==', v, b)))      # log(exp(b)) = b
